@@ -39,7 +39,7 @@ def rand_double(rng):
 
 
 def rand_str(rng):
-    n = rng.choice((0, 1, 3, 8, 20, 80))
+    n = rng.choice((0, 1, 3, 8, 20, 80, 81, 120, 255, 256, 700))      # no length limit in the format: an archive path can be long
     s = "".join(rng.choice("abcXYZ019_-+. /") for _ in range(n))
     if rng.random() < 0.25:
         # file names in the wild spell out parameters: a string VALUE may contain the name of any header key (and the
@@ -107,7 +107,7 @@ class C05(Prop):
                 "fch1": rng.choice((1500.0, 1382.3, 433.968, 800.1953125)), "nbits": rng.choice((1, 2, 4, 8, 16, 32)),
                 "tsamp": rng.choice((64e-6, 1e-3, 5.12e-5, 0.000327680)),
                 "tstart": rng.choice((58000.0, 55041.5, 60123.123456789, 59999.99999999)),
-                "source": rng.choice(("J0437-4715", "B0329+54", "", "x" * 40)),
+                "source": rng.choice(("J0437-4715", "B0329+54", "", "x" * 40, "field_" + "y" * 90)),
                 "az": rng.uniform(0, 360), "za": rng.uniform(0, 90), "aunit": rng.choice(("deg", "deg", "rad", "hourangle", "arcmin")),
                 "ibeam": rng.randrange(0, 14),
                 "nbeams": rng.randrange(0, 14), "dm": rng.choice((0.0, 2.64476, 1234.5)), "nifs": rng.choice((1, 2, 4)),
